@@ -153,6 +153,11 @@ struct Program {
     rt::Rng rng;
     int maxThreads = 1;
     int sideWorkers = 0;               // idle workers of a second pool that lives next to the one under test
+    std::set<int> threadsBeforePool;   // thread records that were alive before the pool under test existed (second pool, hosting worker)
+    void noteThreadsBeforePool() {
+        threadsBeforePool.clear();
+        for (int i = 0, n = spy::threadCount(); i < n; ++i) { spy::ThreadRec *t = spy::thread(i); if (t->used.load() && !t->finished.load()) threadsBeforePool.insert(i); }
+    }
     int nTasks = 0;
     int segment = 0;
     int drainedUpTo = 0;            // tasks [0, drainedUpTo) have been accounted for by a drain/clear/stop
@@ -310,8 +315,13 @@ struct Program {
         if (pool->isRunning()) fail("C08", "running-after-stop", "stop", "isRunning() is true after stop()");
         // "after all worker threads have exited": a worker whose start routine has not returned yet (or that is still on its
         // way out) when stop() is back was not waited for
-        int alive = spy::unfinishedThreadsWithRole(-1) - sideWorkers;
-        if (alive != 0) fail("C08", "worker-thread-alive-after-stop", "stop", std::to_string(alive) + " worker thread(s) of the pool still exist after stop() returned");
+        int alive = 0;
+        std::string recs;
+        for (int i = 0, n = spy::threadCount(); i < n; ++i) {
+            spy::ThreadRec *t = spy::thread(i);
+            if (t->used.load() && !t->finished.load() && t->role.load() == -1 && !threadsBeforePool.count(i)) { ++alive; recs += " [thread #" + std::to_string(i) + " tid " + std::to_string(t->tid.load()) + "]"; }
+        }
+        if (alive != 0) fail("C08", "worker-thread-alive-after-stop", "stop", std::to_string(alive) + " thread(s) started by the pool still exist after stop() returned:" + recs);
         if (pool->getActiveThreadCount() != 0) fail("C08", "workers-after-stop", "stop", "getActiveThreadCount() = " + std::to_string(pool->getActiveThreadCount()) + " after stop() returned");
         if (gRunningNow.load() != 0) fail("C08", "task-running-after-stop", "stop", std::to_string(gRunningNow.load()) + " task(s) are running after stop() returned");
         for (int i = 0; i < nTasks && !gCaseFailed; ++i) {
@@ -360,6 +370,7 @@ struct Program {
     void runExpiring(int steps) {
         maxThreads = (int) rng.range(1, 4);
         expiring = true;
+        noteThreadsBeforePool();
         pool = new ThreadPool();
         int timeoutMs = (int) rng.range(1, 4);
         pool->setExpiryTimeout(timeoutMs);
@@ -434,6 +445,7 @@ struct Program {
             sideWorkers = side->getThreadCount();
             ++C.programsNextToASecondPool;
         }
+        noteThreadsBeforePool();
         pool = new ThreadPool();
         pool->setExpiryTimeout(-1);     // non-expiring workers
         pool->setMaxThreadCount(maxThreads);
